@@ -561,8 +561,10 @@ def rule_det3(prog, rep, tier, scope=None):
                     n += 1
                     rep.violation(Finding("DET-3", m.name, "memo-wrap:%s" % src(st.targets[0]), "module-level memoisation wrapper %s" % src(st, 70), loc(prog, st)))
     rep.ob("DET-3", "%d functions scanned for writes to state that outlives the call" % len(fns), "holds", "", "%d candidate(s) examined" % n)
-    if scope is None and n < 1:
-        raise AnalysisError("DET-3: no candidate write found at all (the per-activation closure attribute in docstring_parsers is expected)")
+    # vacuity: a clean package legitimately has no candidate at all, so the guard is on what was scanned (the recogniser
+    # itself is exercised on every thorough run by the self-test variants that plant each construct class)
+    if scope is None and len(fns) < 100:
+        raise AnalysisError("DET-3: only %d functions scanned; the package model is evidently incomplete" % len(fns))
 
 
 def _mutable_default(fn_node, pname):
